@@ -5604,7 +5604,13 @@ class DfaCompileCtx:
                 # constant assignment makes some (only where it is performed whatever the outputs hold: not under an if), every character appended
                 # behind it takes one again. Back here with none, the byte cannot fit either.
                 storage = overflowing[0].into_storage if overflowing and all(append.into_storage is overflowing[0].into_storage for append in overflowing) else None
-                capacity = storage.effective_string_size() if storage is not None and storage.holds_a(OutputStorageType.STR) else 1 << 30
+                if storage is not None and storage.holds_a(OutputStorageType.STR):
+                    capacity = storage.effective_string_size()
+                elif storage is not None and storage.holds_a(OutputStorageType.RAW):
+                    # (as many bytes as the C type has, where that is known; the overflow test compares with sizeof)
+                    capacity = CodegenCtx._get_maxval_hint_for_raw_type(storage.raw_underlying) or 1 << 30
+                else:
+                    capacity = 1 << 30
 
                 def room_behind(step, room):
                     for action in step.actions:
@@ -5841,7 +5847,8 @@ class CodegenCtx:
             else:
                 return "uintmax_t"
 
-    def _get_maxval_hint_for_raw_type(self, typename: str):
+    @staticmethod
+    def _get_maxval_hint_for_raw_type(typename: str):
         """
         Guess the size of an arbitrary c type.
         """
